@@ -531,6 +531,23 @@ GMemberRet(p) ==                                        \* logged: gjoin.ret / g
   /\ op' = [op EXCEPT ![p] = Idle]
   /\ UNCHANGED <<avars, rvars, reply, bud, gvars, supq, hvars>>
 
+GLenCall(p) ==                                          \* logged: glen.call
+  /\ op[p].t = "idle"
+  /\ op' = [op EXCEPT ![p] = [Idle EXCEPT !.t = "glen", !.st = "do"]]
+  /\ bud' = [bud EXCEPT ![p].j = @ + 1]
+  /\ UNCHANGED <<avars, rvars, reply, gvars, supq, hvars>>
+
+\* ProcessGroup::len under the state mutex
+GLenDo(p) ==
+  /\ op[p].t = "glen" /\ op[p].st = "do" /\ glock = NoProc
+  /\ op' = [op EXCEPT ![p].st = "ret", ![p].n = Len(members)]
+  /\ UNCHANGED <<avars, rvars, reply, bud, gvars, supq, hvars>>
+
+GLenRet(p, n) ==                                        \* logged: glen.ret
+  /\ op[p].t = "glen" /\ op[p].st = "ret" /\ op[p].n = n
+  /\ op' = [op EXCEPT ![p] = Idle]
+  /\ UNCHANGED <<avars, rvars, reply, bud, gvars, supq, hvars>>
+
 GSendCall(p, n, k) ==                                   \* logged: gsend.call
   /\ op[p].t = "idle"
   /\ op' = [op EXCEPT ![p] = [Idle EXCEPT !.t = "gsend", !.st = "glock", !.n = n, !.k = k]]
@@ -595,7 +612,7 @@ ActorStep(a) ==
 
 ProcInternal(p) ==
   \/ SpawnReserve(p) \/ SendCheck(p) \/ SendPush(p) \/ StopSwap(p) \/ StopPush(p) \/ LookupDo(p)
-  \/ GJoinDo(p) \/ GLeaveDo(p) \/ GSendLock(p) \/ GTry(p) \/ GAfter(p)
+  \/ GJoinDo(p) \/ GLeaveDo(p) \/ GLenDo(p) \/ GSendLock(p) \/ GTry(p) \/ GAfter(p)
 
 ProcRet(p) ==
   \/ \E res \in {"ok", "nametaken", "startfail"} : SpawnRet(p, res)
@@ -604,6 +621,7 @@ ProcRet(p) ==
   \/ \E res \in {"true", "false"} : StopRet(p, res)
   \/ \E a \in Actors \cup {NoActor} : LookupRet(p, a)
   \/ GMemberRet(p)
+  \/ \E n \in 0..(2 * Cardinality(Actors)) : GLenRet(p, n)
   \/ SupHandleEnd(p)
 
 ProcCall(p) ==
@@ -620,6 +638,7 @@ ProcCall(p) ==
   \/ /\ p \in Joiners /\ bud[p].j < JoinsPer
      /\ \/ \E a \in Actors : Reachable(a) /\ GJoinCall(p, a, 10 * p + bud[p].j)
         \/ \E i \in 1..Len(members) : GLeaveCall(p, members[i].id)
+        \/ GLenCall(p)
   \/ /\ p = SupProc
      /\ \/ \E ev \in {supq[i] : i \in 1..Len(supq)} : SupHandle(p, ev)
         \/ /\ op[p].t = "suphandle" /\ op[p].k \in {"failed", "terminated"}
@@ -725,14 +744,15 @@ Safety == TypeOK /\ SerialFifo /\ Conservation /\ HandlingOnlyWhileRunning /\ Ho
 \* --- liveness (on FairSpec) ---
 Waiting(p) == op[p].t \in {"send", "gsend"} /\ op[p].k \in CallKinds /\ op[p].st = "ret" /\ op[p].res = "ok"
 \* strict: a call never hangs (violated by the code as it is: CloseRxKeepsQueue)
-CallNeverHangs == \A p \in Procs : Waiting(p) ~> ~Waiting(p)
+Clients == Senders \cup GSenders      \* only these ever send messages in the bounded Next
+CallNeverHangs == \A p \in Clients : Waiting(p) ~> ~Waiting(p)
 \* as the code is: it returns unless its message is stuck in a closed mailbox (the recorded deviation)
-CallReturnsOrStuck == \A p \in Procs : Waiting(p) ~> (~Waiting(p) \/ Stuck(p))
+CallReturnsOrStuck == \A p \in Clients : Waiting(p) ~> (~Waiting(p) \/ Stuck(p))
 \* every accepted message is handled unless the actor stops or fails first
 InQueue(a, p, n) == \E i \in 1..Len(queue[a]) : queue[a][i].p = p /\ queue[a][i].n = n
 WasHandled(a, p, n) == \E i \in 1..Len(handled[a]) : handled[a][i] = <<p, n>>
 AllHandledUnlessStopped ==
-  \A a \in Actors : \A p \in Procs : \A n \in 1..MsgsPer :
+  \A a \in Actors : \A p \in Clients : \A n \in 1..MsgsPer :
     InQueue(a, p, n) ~> (WasHandled(a, p, n) \/ phase[a] \in GonePhases)
 \* a started actor that is stopped or fails runs through the whole shutdown
 StopCompletes == \A a \in Actors : (phase[a] = "finish") ~> (phase[a] = "done")
